@@ -216,6 +216,14 @@ def f2(prog, ctx):
                 slot_no = l0.children[1].const_value()      # a literal, or a named constant / enumerator
                 if slot_no is not None:
                     sts.setdefault(int(slot_no), []).append((st, render(rhs)))
+        if not sts:
+            # the pair built by a helper that is handed both directories (and is not one of the entry points): not followed into it
+            helpers9 = [c for c in f.calls() if prog.has_fn(c.j.get("callee") or "") and c.j.get("callee") not in TWO_DIR and c.j.get("callee") != HIST
+                        and {"dist_conf_dir", "etc_conf_dir"} <= set(render(a9) for a9 in c.call_args())]
+            if helpers9 or getattr(f, "inlined", None):
+                ctx.inconclusive("F2", "%s builds [dist or \"\", etc or \"\"]" % w, (helpers9[0] if helpers9 else f).where,
+                                 "the directory pair is built by %s(): not followed into the helper" % (helpers9[0].j["callee"] if helpers9 else "/".join(f.inlined)))
+                continue
         want = {0: "dist_conf_dir", 1: "etc_conf_dir"}
         ok = True
         for slot, p in want.items():
